@@ -21,7 +21,16 @@ CONFIG = {
                   "as a Source under further adapters it is transparent (into_iter_transparent), so all the above carry "
                   "over; source side: the script is left exactly behind the step of the fault (run_state_spec, "
                   "no_read_ahead_*); HashSet/BTreeSet collectors and the streaming Turtle/TriG/RDF-XML serializers "
-                  "(constructor / format call j / finish failing) as instances (collectSet_spec, serializeRio_spec). The theorems are about the Lean model; that the model is the Rust code "
+                  "(constructor / format call j / finish failing) as instances (collectSet_spec, serializeRio_spec); "
+                  "run_spec_generic: the same for ANY item type and ANY pure closures in the adapters (the protocol's "
+                  "closed family is an instance, family_is_generic); the model's fuel never runs out for iterator, batch "
+                  "and into_iter sources (fuel_suffices*), into_iter from any iterator state; multi-index (Fast) "
+                  "stores: after any insert_all run, faulted anywhere, every index holds the same statements "
+                  "(fast_insert_all_coherent), the primary index evolving as the one-list store of the count theorems "
+                  "(fast_insert_sim), with a kernel-checked witness that a derive-indexes-afterwards bulk variant is "
+                  "incoherent after a fault. Tie to the text: tools/extractors/c15.py regenerates the normalised text of the 41 "
+                  "Rust function bodies the model mirrors and the list of overrides of provided stream methods; "
+                  "transcribed_text_is_current / no_bulk_override are obligations on them. The theorems are about the Lean model; that the model is the Rust code "
                   "is checked differentially on every run (call log, result, error side and payload, counts, final "
                   "store, bytes written), exhaustively in the fault position.",
     "level_note": "Differential, not proof: correspondence model<->/repo; Rio's behaviour inside one parse_step (batch "
@@ -36,7 +45,7 @@ CONFIG = {
                   "the real index at run time. The number of Ok(true) rounds (info.steps) is informational. The pretty "
                   "Turtle/TriG serializers (which collect before writing), the JSON-LD and RDF/XML parser sources are "
                   "not driven. No native_decide.",
-    "tables": [],
+    "tables": ["sourceshapes"],
     "lean_targets": ["SophiaProofs.Props.C15", "SophiaProofs.Audit.C15"],
     "theorems": ["run_spec", "run_spec_iter", "fuel_suffices", "specSource_spec",
                  "prefix_exact_source_fault_any_sink", "prefix_exact_source_fault",
@@ -48,7 +57,10 @@ CONFIG = {
                  "into_iter_transparent", "into_iter_prefix_exact_source_fault", "into_iter_prefix_exact_sink_fault",
                  "into_iter_nothing_after_source_fault", "into_iter_blame_source", "into_iter_blame_sink",
                  "run_state_spec", "no_read_ahead_source_fault", "no_read_ahead_sink_fault",
-                 "collectSet_spec", "serializeRio_spec"],
+                 "collectSet_spec", "serializeRio_spec",
+                 "run_spec_generic", "family_is_generic", "fuel_suffices_iter", "into_iter_run_spec_any_state",
+                 "fuel_suffices_into_iter", "fast_insert_coherent", "fast_insert_all_coherent", "fast_insert_sim",
+                 "bulk_insert_all_incoherent_witness", "transcribed_text_is_current", "no_bulk_override"],
     "native_ok": [],
     "trivial_re": r"^log=_ ret=ok",
     "rule": "item sequences (len 0..20, values colliding mod the filter moduli) x well-typed adapter chains (depth 0..3 "
